@@ -167,6 +167,102 @@ theorem msg2_substitution_partial (go : GroupOracle h F G) (idx tA tb tb' : Nat)
     rw [mul_sub, sub_smul, this, sub_self]
   exact smul_ne_zero_of (mul_ne_zero hta (sub_ne_zero.mpr hne)) hgen hz
 
+/-- **msg1_instance_substitution_partial** (C05, second sentence: an entry of message 1 moved to another instance of
+    the SAME session).  The entry `[r_0, r_1]` the receiver produced for instance `i` (choice bit `bit`, scalars `tA`,
+    `rO`) is put at position `i'`; the sender processes it there with scalars `tb0, tb1`, the receiver processes the
+    answer with ITS state of instance `i'` (choice bit `bit'`, scalar `tA'`).  The batch index `i'` is hashed into both
+    `h_function` calls of the sender, so each sender key is `H2(i', t_b·(r_b + h_function(b, i', sid, r_{1-b})))` with a
+    hash-to-curve value that was never used by the receiver.  Proved: the receiver's key matches NEITHER sender key,
+    under: both sender scalars non-zero in Z_q; for each slot the hash-to-curve value at batch index `i'` is not the
+    one point `(t_b⁻¹·t_a'·t_b^c)·G − r_b` (random-oracle gap, probability 1/q each); `h_function_2` does not collide
+    on the points involved.  (`i ≠ i'` is what makes the gap hypotheses plausible; it is not used formally.) -/
+theorem msg1_instance_substitution_partial (go : GroupOracle h F G) (sid : Bytes) (i i' bit tA rO bit' tA' tb0 tb1 : Nat)
+    (hb : bit ≤ 1) (ht0 : (tb0 : F) ≠ 0) (ht1 : (tb1 : F) ≠ 0)
+    (hgap0 : go.dec (Hf h 0 i' sid (recvInst (m := Id) h sid i bit tA rO).2)
+      ≠ ((tb0 : F)⁻¹ * ((tA' : F) * ((if bit' = 0 then tb0 else tb1 : Nat) : F))) • go.gen
+        - go.dec (recvInst (m := Id) h sid i bit tA rO).1)
+    (hgap1 : go.dec (Hf h 1 i' sid (recvInst (m := Id) h sid i bit tA rO).1)
+      ≠ ((tb1 : F)⁻¹ * ((tA' : F) * ((if bit' = 0 then tb0 else tb1 : Nat) : F))) • go.gen
+        - go.dec (recvInst (m := Id) h sid i bit tA rO).2)
+    (hcol0 : H2NoCollision h i' (ptSend h sid i' 0 (recvInst (m := Id) h sid i bit tA rO).1 (recvInst (m := Id) h sid i bit tA rO).2 tb0)
+      (ptRecv h tA' (if bit' = 0 then tb0 else tb1)))
+    (hcol1 : H2NoCollision h i' (ptSend h sid i' 1 (recvInst (m := Id) h sid i bit tA rO).2 (recvInst (m := Id) h sid i bit tA rO).1 tb1)
+      (ptRecv h tA' (if bit' = 0 then tb0 else tb1))) :
+    let si := sendInst (m := Id) h sid i' (recvInst (m := Id) h sid i bit tA rO) tb0 tb1
+    (recvProcInst (m := Id) h i' bit' tA' si.mb).2 ≠ si.rho.1 ∧ (recvProcInst (m := Id) h i' bit' tA' si.mb).2 ≠ si.rho.2 := by
+  intro si
+  -- the entry consists of two computed points
+  obtain ⟨q0, q1, hq0, hq1, he⟩ : ∃ q0 q1, IsGroupOp q0 ∧ IsGroupOp q1 ∧ recvInst (m := Id) h sid i bit tA rO = (h q0, h q1) := by
+    rw [recvInst_id]
+    have hb' : bit = 0 ∨ bit = 1 := by omega
+    rcases hb' with rfl | rfl
+    · exact ⟨_, _, by trivial, by trivial, rfl⟩
+    · exact ⟨_, _, by trivial, by trivial, rfl⟩
+  simp only [si]
+  rw [he] at hgap0 hgap1 hcol0 hcol1 ⊢
+  rw [sendInst_computed h go sid i' q0 q1 hq0 hq1, recvProcInst_computed h go]
+  simp only
+  constructor
+  · intro e
+    exact ptSend_ne h go sid i' 0 _ _ tb0 tA' _ ht0 hgap0 (hcol0 e.symm)
+  · intro e
+    exact ptSend_ne h go sid i' 1 _ _ tb1 tA' _ ht1 hgap1 (hcol1 e.symm)
+
+/-- **msg2_independent_of_sid** (for EVERY oracle): message 2 and the sender's consumption of its random tape depend
+    only on the tape — not on the session id, not on message 1.  (`m_b = t_b·G`; this is why a substituted message 2 is
+    detected only through the freshness of `t_b`, see `msg2_substitution_partial`.) -/
+theorem msg2_independent_of_sid (sid sid' : Bytes) (msg1 msg1' : List (Bytes × Bytes)) (tape : Tape) :
+    (sendProcess (m := Id) h sid msg1 tape).1.msg2 = (sendProcess (m := Id) h sid' msg1' tape).1.msg2 ∧
+    (sendProcess (m := Id) h sid msg1 tape).2 = (sendProcess (m := Id) h sid' msg1' tape).2 := by
+  rw [sendProcess_id, sendProcess_id, sendWith_id, sendWith_id]
+  refine ⟨?_, rfl⟩
+  simp only [List.map_map]
+  apply List.map_congr_left
+  intro idx _
+  simp only [Function.comp, sendInst_id]
+
+/-- **decode_accepts_identity_and_compact** (what `ecValid` has to answer for the model's "error iff" to match the
+    Rust; the harness stream C05 checks that the real `decode_point` behaves so).  `decode_point` is `ecValid`: ANY
+    encoding the oracle accepts — for k256's `GroupEncoding::from_bytes` that includes, besides tags 02/03, the 33 zero
+    bytes (identity) and the SEC1 compact tag 05 — decodes without error, and the model continues with its re-encoding
+    `ecMul p 1` (which, for a `GroupOracle`, denotes the same group element: accepted encodings need not be canonical).
+    In particular, if the oracle accepts the identity encoding, neither the sender nor the receiver rejects an
+    all-identity message. -/
+theorem decode_accepts_identity_and_compact :
+    (∀ p : Bytes, h (.ecValid K1 p) = [1] → decodePoint (m := Id) h p = (true, h (.ecMul K1 p 1))) ∧
+    (∀ p : Bytes, h (.ecValid K1 p) ≠ [1] → decodePoint (m := Id) h p = (false, identity33)) ∧
+    (h (.ecValid K1 identity33) = [1] → ∀ (sid : Bytes) (tb : List Nat) (st : RecvState),
+      (sendWith (m := Id) h sid (List.replicate Generated.LAMBDA_C (identity33, identity33)) tb).err = false ∧
+      (recvProcess (m := Id) h st (List.replicate Generated.LAMBDA_C (identity33, identity33))).isSome) := by
+  refine ⟨?_, ?_, ?_⟩
+  · intro p hp; rw [decodePoint_id, if_pos hp]
+  · intro p hp; rw [decodePoint_id, if_neg hp]
+  · intro hid sid tb st
+    constructor
+    · cases he : (sendWith (m := Id) h sid (List.replicate Generated.LAMBDA_C (identity33, identity33)) tb).err with
+      | false => rfl
+      | true =>
+        obtain ⟨idx, hidx, hbad⟩ := (send_error_iff h sid _ tb).mp he
+        have : (List.replicate Generated.LAMBDA_C (identity33, identity33)).getD idx (identity33, identity33) = (identity33, identity33) := by
+          simp [List.getD_eq_getElem?_getD, List.getElem?_replicate, hidx]
+        rw [this] at hbad
+        rcases hbad with hbad | hbad <;> exact absurd hid hbad
+    · cases he : recvProcess (m := Id) h st (List.replicate Generated.LAMBDA_C (identity33, identity33)) with
+      | some _ => rfl
+      | none =>
+        obtain ⟨idx, hidx, hbad⟩ := (recv_error_iff h st _).mp he
+        have : (List.replicate Generated.LAMBDA_C (identity33, identity33)).getD idx (identity33, identity33) = (identity33, identity33) := by
+          simp [List.getD_eq_getElem?_getD, List.getElem?_replicate, hidx]
+        rw [this] at hbad
+        simp only [ite_self] at hbad
+        exact absurd hid hbad
+
+/-- accepted encodings denote group elements: the re-encoding used by the model is the same element -/
+theorem decode_same_element (go : GroupOracle h F G) (p : Bytes) (hp : h (.ecValid K1 p) = [1]) :
+    go.dec (decodePoint (m := Id) h p).2 = go.dec p := by
+  rw [(decode_accepts_identity_and_compact h).1 p hp, go.mul]
+  simp
+
 /-! ### non-vacuity: a toy oracle that satisfies `GroupOracle` (the group is Z/3 with generator 1, a point is one
     byte, merlin answers with the sum of the message bytes — so the session id matters), on which every hypothesis of
     the partial theorems is checked by evaluation -/
@@ -237,5 +333,23 @@ example :
 /-- `msg2_substitution_partial`: t_a = 1, t_b' = 2, t_b = 1 -/
 example : H2 toyH 0 (ptRecv toyH 1 2) ≠ H2 toyH 0 (ptRecv toyH 1 1) :=
   msg2_substitution_partial toyH toyOracle 0 1 1 2 (by decide) (by decide) (by decide) (by unfold H2NoCollision; decide)
+
+/-- `msg1_instance_substitution_partial`: entry of instance 0 (bit 1, t_a = 2, r_o = 1) moved to instance 1, whose
+    receiver state is bit 1, t_a' = 2; sender scalars (1, 1) -/
+example :
+    let si := sendInst (m := Id) toyH [] 1 (recvInst (m := Id) toyH [] 0 1 2 1) 1 1
+    (recvProcInst (m := Id) toyH 1 1 2 si.mb).2 ≠ si.rho.1 ∧ (recvProcInst (m := Id) toyH 1 1 2 si.mb).2 ≠ si.rho.2 :=
+  msg1_instance_substitution_partial toyH toyOracle [] 0 1 1 2 1 1 2 1 1 (by decide) (by decide) (by decide)
+    (by simp [toyOracle]; decide) (by simp [toyOracle]; decide) (by unfold H2NoCollision; decide)
+    (by unfold H2NoCollision; decide)
+
+/-- `msg2_independent_of_sid`, `decode_accepts_identity_and_compact`: the toy oracle accepts every encoding, so the
+    premise of the third part is satisfiable; an oracle that accepts nothing shows the second part is not vacuous -/
+example : (sendProcess (m := Id) toyH [1] [] [9, 9]).1.msg2 = (sendProcess (m := Id) toyH [2, 3] [([5], [6])] [9, 9]).1.msg2 :=
+  (msg2_independent_of_sid toyH [1] [2, 3] [] [([5], [6])] [9, 9]).1
+example : (sendWith (m := Id) toyH [] (List.replicate Generated.LAMBDA_C (identity33, identity33)) []).err = false :=
+  ((decode_accepts_identity_and_compact toyH).2.2 rfl [] [] { choiceBits := [], tA := [] }).1
+example : decodePoint (m := Id) (fun _ => []) [5] = (false, identity33) :=
+  (decode_accepts_identity_and_compact (fun _ => [])).2.1 [5] (by decide)
 
 end SlVerif.C05
